@@ -269,6 +269,63 @@ def _t_builtin(c):
     return False
 
 
+def _hard_char(value):
+    if isinstance(value, bytes):
+        value = value.decode("latin-1")
+    for ch in value:
+        o = ord(ch)
+        if ch in "'\"\\" or o < 32 or 127 <= o <= 255 or 0xD800 <= o <= 0xDFFF:
+            return True
+    return False
+
+
+def fstring_hard(tree):
+    """An f-string whose one-line rendering on a host < 3.12 needs a backslash / an inner quote
+    character (any string piece below it has one) or three or more nested quote levels."""
+    # (node, quote level of the innermost enclosing f-string; 0 = not inside an f-string)
+    stack = [(tree, 0)]
+    while stack:
+        n, lvl = stack.pop()
+        if isinstance(n, ast.JoinedStr):
+            mine = lvl + 1
+            if mine >= 3:
+                return True
+            for v in n.values:
+                if isinstance(v, ast.Constant):
+                    if isinstance(v.value, (str, bytes)) and _hard_char(v.value):
+                        return True
+                else:
+                    stack.append((v, mine))
+            continue
+        if isinstance(n, ast.FormattedValue):
+            stack.append((n.value, lvl))
+            if n.format_spec is not None:
+                # the spec shares the quote level of its f-string
+                for v in n.format_spec.values:
+                    if isinstance(v, ast.Constant):
+                        if isinstance(v.value, (str, bytes)) and _hard_char(v.value):
+                            return True
+                    else:
+                        stack.append((v, lvl))
+            continue
+        if isinstance(n, ast.Constant) and isinstance(n.value, (str, bytes)) and lvl >= 1:
+            if lvl + 1 >= 3 or _hard_char(n.value):
+                return True
+            continue
+        for c in ast.iter_child_nodes(n):
+            stack.append((c, lvl))
+    return False
+
+
+@trigger("pre312_fstring_hard")
+def _t_fstring_pre312(c):
+    if tuple(c.host) >= (3, 12):
+        return False
+    if c.cfg is not None and c.cfg[0] != "oneliner":
+        return False
+    return fstring_hard(c.tree)
+
+
 @trigger("always")
 def _t_always(c):
     return True
